@@ -52,14 +52,32 @@ func RawSidx(version byte, refID, timescale uint32, ept, firstOffset uint64, ref
 
 // RawMfra makes mfra(tfra v1 + mfro) with one entry per given moof offset.
 func RawMfra(trackID uint32, times, moofOffsets []uint64) []byte {
-	t := []byte{1, 0, 0, 0}
+	return RawMfraOpt(trackID, times, moofOffsets, 1, 0)
+}
+
+// RawMfraOpt: tfra version 0 (32-bit time / offset) or 1 (64-bit), and the three "length_size_of_*" codes packed
+// as in the box (2 bits each: traf number, trun number, sample number; field widths 1..4 bytes).
+func RawMfraOpt(trackID uint32, times, moofOffsets []uint64, version byte, lengthSizes uint32) []byte {
+	t := []byte{version, 0, 0, 0}
 	t = append(t, be32(trackID)...)
-	t = append(t, be32(0)...) // all length sizes 1 byte
+	t = append(t, be32(lengthSizes&0x3f)...)
 	t = append(t, be32(uint32(len(moofOffsets)))...)
+	num := func(code uint32) []byte { // the value 1 in a field of code+1 bytes
+		b := make([]byte, code+1)
+		b[code] = 1
+		return b
+	}
 	for i := range moofOffsets {
-		t = append(t, be64(times[i])...)
-		t = append(t, be64(moofOffsets[i])...)
-		t = append(t, 1, 1, 1)
+		if version == 1 {
+			t = append(t, be64(times[i])...)
+			t = append(t, be64(moofOffsets[i])...)
+		} else {
+			t = append(t, be32(uint32(times[i]))...)
+			t = append(t, be32(uint32(moofOffsets[i]))...)
+		}
+		t = append(t, num(lengthSizes>>4&3)...)
+		t = append(t, num(lengthSizes>>2&3)...)
+		t = append(t, num(lengthSizes&3)...)
 	}
 	tfra := box("tfra", t)
 	mfraSize := uint32(8 + len(tfra) + 16)
